@@ -1,6 +1,6 @@
 From Coq Require Import NArith List Bool.
 Import ListNotations.
-From SK Require Import model.C14_Model proof.C14_Proof proof.C14_Batch proof.C14_Cluster.
+From SK Require Import model.C14_Model proof.C14_Proof proof.C14_Batch proof.C14_Cluster model.C14_CrnModel proof.C14_Crn.
 Local Open Scope N_scope.
 
 (** Pinned key discipline (the repaired code): for EVERY allocator and collector behaviour (every legal
@@ -93,3 +93,30 @@ Theorem C14_cluster_batches_templates :
     ts <> [] -> cfit A iso att items ts bs = cluster A iso att items ts.
 Proof. exact cluster_batches_templates. Qed.
 Print Assumptions C14_cluster_batches_templates.
+
+(** Parallel versus serial network expansion (SynCRN.build; model coq/model/C14_CrnModel.v, evaluated by the
+    correspondence for the serial run and for max_workers 1, 2, 3).  For every rule list (arities, contents),
+    configuration, execution table, seed list and worker count the parallel build produces exactly the serial
+    build: same species and event nodes with the same node ids, steps, rule indices, rule contents, application
+    indices and arcs, same number of tasks per step.  Process-level parallelism is modelled as an
+    order-preserving chunked map (executor.map contract; worker counts are compared at run time). *)
+Theorem C14_crn_parallel_equals_serial :
+  forall (c : crn_cfg) (parallel : bool) (workers : nat) (t : exec_table) (seeds : list (option N)),
+  build c parallel workers t seeds = build c false 0%nat t seeds.
+Proof. exact main_crn_parallel_equals_serial. Qed.
+Print Assumptions C14_crn_parallel_equals_serial.
+
+(** Every result handed to the integration step — serial or parallel, any worker count — carries the index of a
+    rule of the rule list and the product mixtures obtained by executing THAT rule's content on the result's own
+    reactant mixture: rules that cannot produce a task in a step (arity above max_components, every mixture
+    already attempted, budget exhausted) never shift the attribution of the rules behind them. *)
+Theorem C14_crn_results_attributed :
+  forall (c : crn_cfg) (parallel : bool) (workers : nat) (t : exec_table)
+         (index : list (N * N)) (pool frontier : list N) (seen : list (nat * mixt)) (r : result),
+  In r (run_tasks parallel workers t
+          (snd (tasks_of_rules c index pool frontier 0%nat (cc_rules c) seen (cc_max_tasks c) []))) ->
+  exists ar cid,
+    nth_error (cc_rules c) (fst (fst r)) = Some (ar, cid) /\
+    snd r = exec_lookup t cid (snd (fst r)).
+Proof. exact main_crn_results_attributed. Qed.
+Print Assumptions C14_crn_results_attributed.
